@@ -146,6 +146,16 @@ def writers(field, allowed, props, why=''):
     WRITERS[field] = {'allowed': list(allowed), 'props': list(props), 'why': why}
 
 
+EVALFACTS = {}
+
+
+def evalfact(name, props, fn, why=''):
+    """evaluated fact: `fn(reflected)` receives the tables read from the imported repository modules
+    (oracles/reflect_repo.py, run against the current working tree) and yields (subname, ok, detail);
+    each item is one obligation decided by evaluation (back end 'eval'), not by the solver"""
+    EVALFACTS[name] = {'props': list(props), 'fn': fn, 'why': why}
+
+
 GHOSTS = {}
 OBSERVERS = set()
 
